@@ -439,3 +439,66 @@ func C10ConsumerOrder() {
 	}
 	sym.Reach("consumer-order-done")
 }
+
+// C10MixedSizes: two senders, two messages each, of mixed sizes around the sizes at which a sender might
+// be tempted to treat messages differently (a few bytes; 4100 and 9000 bytes, beyond a 4 KiB buffer): one
+// sends small then large, the other large then small, small then small, or two messages without payload. The wire carries four intact
+// messages, each sender's in the order it sent them.
+func C10MixedSizes() {
+	s := newZZStream()
+	e := NewEndPoint(s)
+	shapes := [][2]int{{3, 4100}, {9000, 2}}
+	switch sym.Choose("second-sender", 3) {
+	case 1:
+		shapes[1] = [2]int{1, 5}
+	case 2:
+		// messages without payload (a cancel, a void call): a frame is a frame
+		shapes[1] = [2]int{0, 0}
+	}
+	msgs := make([][]Message, 2)
+	id := uint32(1)
+	for i := range msgs {
+		for _, n := range shapes[i] {
+			p := make([]byte, n)
+			if n > 0 {
+				p[0], p[n-1] = sym.U8("first"), sym.U8("last")
+			}
+			msgs[i] = append(msgs[i], NewMessage(NewHeader(Call, sym.U32("service"), 1, 1, id), p))
+			id++
+		}
+	}
+	done := make(chan bool, 2)
+	for i := 0; i < 2; i++ {
+		go func(i int) {
+			for _, m := range msgs[i] {
+				sym.Assert(e.Send(m) == nil, "send-ok")
+			}
+			done <- true
+		}(i)
+	}
+	<-done
+	<-done
+	r := bytes.NewReader(s.sent())
+	next := []int{0, 0}
+	total := 0
+	for r.Len() > 0 {
+		var got Message
+		err := got.Read(r)
+		sym.Assert(err == nil, "mixed/stream-corrupted")
+		if err != nil {
+			return
+		}
+		matched := false
+		for i := 0; i < 2 && !matched; i++ {
+			if next[i] < 2 && got.Header.ID == msgs[i][next[i]].Header.ID {
+				sym.Assert(zzSameMessage(got, msgs[i][next[i]]), "mixed/message-altered")
+				next[i]++
+				matched = true
+			}
+		}
+		sym.Assert(matched, "mixed/message-reordered-or-duplicated")
+		total++
+	}
+	sym.Assert(total == 4, "mixed/message-lost")
+	sym.Reach("mixed-done")
+}
